@@ -1,19 +1,19 @@
 -- REGENERATED on every run by /verif/check from the compiled /repo tree. Do not edit.
 namespace SdnsVerif.Gen.C16
 
-def cache_delegations : List String := ["Add:SetWithCap", "ForEach:ForEach", "Get:Get", "Len:Len", "Remove:getSegment+RLock+Has+RUnlock+Lock+Del+Unlock+Add", "Stop:Stop"]
+def cache_delegations : List String := ["Add:SetWithCap", "ForEach:ForEach", "Get:Get", "Len:Len", "Remove:Del", "Stop:Stop"]
 def cache_global_locks : Nat := 0
 def cache_segments : List Nat := [256, 256, 256, 256]
-def cache_wrappers_touching_internals : List String := ["Remove"]
+def cache_wrappers_touching_internals : List Nat := []
 def expiry_cleanup_not_conditional : List Nat := []
 def grow_pairs : List (List Nat) := [[8, 6], [16, 12], [32, 24], [8, 6], [16, 12], [32, 24], [16, 12], [32, 24], [64, 48], [16, 12], [32, 24], [64, 48], [32, 24], [64, 48], [128, 96], [32, 24], [64, 48], [128, 96], [64, 48], [128, 96], [256, 192], [64, 48], [128, 96], [256, 192], [256, 192], [512, 384], [1024, 768], [2048, 1536], [4096, 3072], [8192, 6144], [262144, 196608], [524288, 393216], [1048576, 786432]]
 def len_functions_touching_locks : List Nat := []
 def limiter_cleanup_locks : List Nat := [1, 0]
 def limiter_global_locks : Nat := 1
-def limiter_sampled_evictions : Nat := 6000
+def limiter_sampled_evictions : Nat := 0
 def limiter_sampled_no_victim : Nat := 0
-def limiter_sampled_own_key : Nat := 0
-def limiter_sampled_victim_not_stored : Nat := 0
+def limiter_sampled_own_key : Nat := 6000
+def limiter_sampled_victim_not_stored : Nat := 6000
 def mutators_without_write_lock : List Nat := []
 def seg_counts : List Nat := [16, 16, 16, 16, 16, 32, 64, 128, 256, 256, 256]
 def segmap_count_atomic : Bool := true
